@@ -243,9 +243,48 @@ def split_top(s, sep=";"):
     return out
 
 
-def val_disp(v):
-    """map values: v0 = nil, vN = the number N"""
-    return "nil" if v in ("-", "v0") else v[1:]
+# map values: an int (0 = nil, n = the number n) | ["sv", id, src, display] (a value with its own printed form, e.g. -0)
+# | ["w", i] (the container held by variable wI, declared by ['vdecl', i, src, display] and changed by
+# ['vmut', i, call, display]: what an entry holds is the OBJECT, so its printed form follows later mutations)
+W_BASE = 500000
+NONOPS = ("decl", "vdecl", "vmut")
+
+
+def v_id(v):
+    if isinstance(v, int):
+        return v
+    return v[1] if v[0] == "sv" else W_BASE + v[1]
+
+
+def v_src(v):
+    if isinstance(v, int):
+        return "nil" if v == 0 else str(v)
+    return v[2] if v[0] == "sv" else "w%d" % v[1]
+
+
+def value_tables(prog):
+    """printed form of every non-plain value id at the time of each statement"""
+    static = {}
+    for s in prog["stmts"]:
+        vs = [s[2]] if s[0] == "ins" else [v for _, v in s[1]] if s[0] in ("lit", "flit") else []
+        for v in vs:
+            if not isinstance(v, int) and v[0] == "sv":
+                static[v[1]] = v[3]
+    cur = dict(static)
+    tabs = {}
+    for i, s in enumerate(prog["stmts"]):
+        if s[0] in ("vdecl", "vmut"):
+            cur[W_BASE + s[1]] = s[3]
+        else:
+            tabs[i] = dict(cur)
+    return tabs
+
+
+def val_disp(v, vtab=None):
+    """v0 / - = nil, vN = the number N unless N names a special value or a container"""
+    if v in ("-", "v0"):
+        return "nil"
+    return (vtab or {}).get(int(v[1:]), v[1:])
 
 
 # ------------------------------------------------------------------------------------------------------------
@@ -320,7 +359,7 @@ ALL_GROUPS = list(NUM_GROUPS) + list(STR_GROUPS) + list(ATOM_GROUPS)
 def gen_program(rng, maxops):
     """{'decls': n, 'stmts': [...]}; statements: ['decl', key] | ['ins', key, v] | ['get'|'has'|'rem', key] |
     ['clr'] ['len'] ['keys'] ['vals'] ['items'] | ['lit', [[key, v]..]]"""
-    style = rng.choice(["mixed", "mixed", "mixed", "numeric", "tuples", "ranges", "collide", "churn", "alias"])
+    style = rng.choice(["mixed", "mixed", "mixed", "numeric", "tuples", "ranges", "collide", "churn", "alias", "values"])
     if style == "numeric":
         groups = rng.sample(list(NUM_GROUPS), rng.randint(3, 6)) + ["false", "nil"]
     elif style == "tuples":
@@ -370,8 +409,37 @@ def gen_program(rng, maxops):
         return gen_from_group(rng, rng.choice(groups))
 
     vcount = [0]
+    wstate = {}     # container variables: i -> ["vec", [..]] | ["map", x | None]
+
+    def w_disp(i):
+        kind, c = wstate[i]
+        if kind == "vec":
+            return "[%s]" % ", ".join(str(x) for x in c)
+        return "{}" if c is None else "{1: %d}" % c
+
+    if style == "values":
+        # containers in pairs with equal contents: separately built, so == but not the same object
+        groups = groups[:3]
+        for i, init in enumerate([["vec", [1]], ["vec", [1]], ["map", None], ["map", None], ["vec", []], ["vec", []]]):
+            wstate[i] = [init[0], list(init[1]) if init[0] == "vec" else init[1]]
+            stmts.append(["vdecl", i, w_disp(i), w_disp(i)])
+
+    def mutate():
+        i = rng.choice(sorted(wstate))
+        x = rng.randint(2, 9)
+        if wstate[i][0] == "vec":
+            wstate[i][1].append(x)
+            stmts.append(["vmut", i, "push(%d)" % x, w_disp(i)])
+        else:
+            wstate[i][1] = x
+            stmts.append(["vmut", i, "insert(1, %d)" % x, w_disp(i)])
 
     def val():
+        c = rng.random()
+        if wstate and c < 0.6:
+            return ["w", rng.choice(sorted(wstate))]
+        if c < (0.8 if style == "values" else 0.06):
+            return rng.choice(SIGNED_ZEROS)
         if rng.random() < 0.15:
             return 0
         vcount[0] += 1
@@ -384,6 +452,10 @@ def gen_program(rng, maxops):
         c = rng.random()
         if style == "churn":
             c = c * 0.8
+        if wstate and rng.random() < 0.2:
+            mutate()
+        if style == "values":
+            c = c * 0.7 if c > 0.3 else c        # insert / get heavy, few removes
         if c < 0.36:
             stmts.append(["ins", key(), val()])
         elif c < 0.44:
@@ -439,9 +511,64 @@ def range_evals(prog):
     for s in prog["stmts"]:
         if s[0] in ("decl", "ins", "get", "has", "rem"):
             n += cnt(s[1])
-        elif s[0] == "lit":
+        elif s[0] in ("lit", "flit"):
             n += sum(cnt(k) for k, _ in s[1])
     return n
+
+
+# values that compare == but print differently: what an entry holds after insert(k, v) is v itself
+SIGNED_ZEROS = [["sv", 900001, "0", "0"], ["sv", 900002, "-0", "-0"], ["sv", 900003, "(0 * -1)", "-0"], ["sv", 900004, "0.0", "0"]]
+
+
+def gen_value_identity_programs():
+    """insert(k, v2) over an entry holding v1 with v2 == v1 but another object / another representation: the entry
+    must hold v2 afterwards (seen by mutating v2, or by the sign of zero), and insert must hand back v1"""
+    ab, one = S('"ab"', "ab"), N("1", 1.0)
+    pz, nz = SIGNED_ZEROS[0], SIGNED_ZEROS[1]
+    k = S('"k"', "k")
+    progs = []
+    progs.append([["vdecl", 0, "[1]", "[1]"], ["vdecl", 1, "[1]", "[1]"], ["ins", k, ["w", 0]], ["ins", k, ["w", 1]],
+                  ["vmut", 1, "push(2)", "[1, 2]"], ["get", k], ["vmut", 0, "push(7)", "[1, 7]"], ["get", k], ["vals"],
+                  ["ins", k, ["w", 0]], ["get", k], ["rem", k], ["len"]])
+    progs.append([["ins", N("0", 0.0), pz], ["ins", N("-0", -0.0), nz], ["get", N("0.0", 0.0)], ["ins", N("1 - 1", 0.0), pz],
+                  ["get", N("-0.0", -0.0)], ["items"], ["lit", [[N("0", 0.0), nz], [N("-0", -0.0), pz]]], ["items"],
+                  ["ins", N("0", 0.0), SIGNED_ZEROS[2]], ["vals"]])
+    progs.append([["vdecl", 0, "{}", "{}"], ["vdecl", 1, "{}", "{}"], ["ins", ["tup", [one, ab]], ["w", 0]],
+                  ["ins", ["tup", [N("1.0", 1.0), S('"a" + "b"', "ab")]], ["w", 1]], ["vmut", 1, "insert(1, 2)", "{1: 2}"],
+                  ["get", ["tup", [one, ab]]], ["items"], ["vmut", 0, "insert(1, 5)", "{1: 5}"], ["vals"], ["len"]])
+    progs.append([["vdecl", 0, "[]", "[]"], ["vdecl", 1, "[]", "[]"], ["lit", [[one, ["w", 0]], [N("2 - 1", 1.0), ["w", 1]]]],
+                  ["vmut", 1, "push(3)", "[3]"], ["get", one], ["ins", N("1.0", 1.0), ["w", 0]], ["vmut", 0, "push(4)", "[4]"],
+                  ["get", one], ["ins", one, 0], ["ins", one, 0], ["get", one], ["has", one], ["items"]])
+    return [{"style": "value-identity%d" % i, "stmts": p} for i, p in enumerate(progs)]
+
+
+def gen_biglit_program(rng, n):
+    """a literal of n entries (the operand of BuildHashMap is one byte; 255 is the compiler's limit, 256 a compile
+    error) with ==-equal duplicate keys sprinkled in, evaluated inside a function between two locals, then the
+    usual operations"""
+    pairs = []
+    used = []
+    for i in range(n):
+        c = rng.random()
+        if used and c < 0.08:
+            j = rng.choice(used)
+            key = rng.choice([N("%d.0" % j, float(j)), N("(%d + %d)" % (j - 1, 1), float(j))])     # == an earlier key
+        elif c < 0.14:
+            key = ["tup", [N(str(i), float(i)), rng.choice(STR_GROUPS["s_ab"])]]
+        elif c < 0.18:
+            key = S('"s%d"' % i, "s%d" % i)
+        else:
+            key = N(str(i), float(i))
+            used.append(i)
+        pairs.append([key, 1000 + i])
+    stmts = [["flit", pairs], ["len"]]
+    probe = sorted(set([0, 1, n - 1, n - 2, n // 2, max(n - 128, 0), max(n - 129, 0), 126, 127, 128] + [rng.randrange(max(n, 1)) for _ in range(6)]))
+    for j in probe:
+        if 0 <= j < n + 2:
+            stmts.append([rng.choice(["get", "has"]), N(rng.choice(["%d", "%d.0"]) % j, float(j))])
+    stmts += [["ins", N(str(n + 5), float(n + 5)), 7], ["rem", N("0", 0.0)], ["ins", N("1.0", 1.0), 8], ["len"], ["vals"], ["items"],
+              ["flit", pairs[:3]], ["items"]]
+    return {"style": "biglit%d" % n, "stmts": stmts}
 
 
 def gen_alias_program(key):
@@ -468,10 +595,16 @@ def prog_source(prog):
             lines.append("var k%d = %s;" % (nd, k_src(s[1])))
             nd += 1
             continue
+        if t == "vdecl":
+            lines.append("var w%d = %s;" % (s[1], s[2]))
+            continue
+        if t == "vmut":
+            lines.append("w%d.%s;" % (s[1], s[2]))
+            continue
         lines.append('print("#%d");' % i)
         if t in ("ins", "get", "has", "rem"):
             call = {"ins": "m.insert(%s, %s)", "get": "m.get(%s)", "has": "m.has_key(%s)", "rem": "m.remove(%s)"}[t]
-            args = (k_arg(s[1]), "nil" if s[2] == 0 else str(s[2])) if t == "ins" else (k_arg(s[1]),)
+            args = (k_arg(s[1]), v_src(s[2])) if t == "ins" else (k_arg(s[1]),)
             stmt = "print(%s);" % (call % args)
             if not k_hashable(s[1], decls):
                 stmt = 'try { %s } catch e { print("E"); print(e.context); }' % stmt
@@ -486,8 +619,13 @@ def prog_source(prog):
             lines.append("for v in m.values() { print(v); }")
         elif t == "items":
             lines.append("for it in m.items() { print(it); }")
+        elif t == "flit":
+            # the literal is evaluated inside a function, between two locals that must survive it
+            body = ", ".join("%s: %s" % (k_arg(k), v_src(v)) for k, v in s[1])
+            lines.append('fn mk%d() { var a = "L"; var t = {%s}; var b = "R"; print(a + b); return t; }' % (i, body))
+            lines.append('m = mk%d(); print("ok");' % i)
         elif t == "lit":
-            body = ", ".join("%s: %s" % (k_arg(k), "nil" if v == 0 else str(v)) for k, v in s[1])
+            body = ", ".join("%s: %s" % (k_arg(k), v_src(v)) for k, v in s[1])
             stmt = 'm = {%s}; print("ok");' % body
             if not all(k_hashable(k, decls) for k, _ in s[1]):
                 stmt = 'try { %s } catch e { print("E"); print(e.context); }' % stmt
@@ -501,45 +639,47 @@ def prog_wire(prog):
     groups = []
     for s in prog["stmts"]:
         t = s[0]
+        if t in ("vdecl", "vmut"):
+            continue
         if t == "decl":
             g = [11] + k_wire(s[1], ws)
         elif t == "ins":
-            g = [0, s[2]] + k_wire(s[1], ws)
+            g = [0, v_id(s[2])] + k_wire(s[1], ws)
         elif t in ("get", "has", "rem"):
             g = [{"get": 1, "has": 2, "rem": 3}[t]] + k_wire(s[1], ws)
-        elif t == "lit":
+        elif t in ("lit", "flit"):
             g = [9, len(s[1])]
             for k, v in s[1]:
-                g += [v] + k_wire(k, ws)
+                g += [v_id(v)] + k_wire(k, ws)
         else:
             g = [{"clr": 4, "len": 5, "keys": 6, "vals": 7, "items": 8}[t]]
         groups.append(" ".join(str(x) for x in g))
     return ";".join(groups)
 
 
-def expected_of(tok, stmt, decls):
+def expected_of(tok, stmt, decls, vtab=None):
     """(lines, is_multiset, loose) the program should print for a statement, given the model's result token"""
     if tok in ("-",) or tok.startswith("v"):
-        return [val_disp(tok)], False
+        return [val_disp(tok, vtab)], False
     if tok in ("T", "F"):
         return ["true" if tok == "T" else "false"], False
     if tok.startswith("L"):
         return [tok[1:]], False
     if tok == "N":
-        return (["nil"] if stmt[0] == "clr" else ["ok"]), False
+        return (["nil"] if stmt[0] == "clr" else ["LR", "ok"] if stmt[0] == "flit" else ["ok"]), False
     if tok.startswith("K["):
         return sorted(str(ser_to_disp(x)) for x in split_top(tok[2:-1])), True
     if tok.startswith("W["):
-        return sorted(val_disp(x) for x in split_top(tok[2:-1])), True
+        return sorted(val_disp(x, vtab) for x in split_top(tok[2:-1])), True
     if tok.startswith("I["):
         out = []
         for x in split_top(tok[2:-1]):
             i = x.rindex("=")
-            out.append("(%s, %s)" % (ser_to_disp(x[:i]), val_disp(x[i + 1:])))
+            out.append("(%s, %s)" % (ser_to_disp(x[:i]), val_disp(x[i + 1:], vtab)))
         return sorted(out), True
     if tok.startswith("E"):
         # which key was rejected: the statement's (first unhashable) key
-        keys = [stmt[1]] if stmt[0] != "lit" else [k for k, _ in stmt[1]]
+        keys = [stmt[1]] if stmt[0] not in ("lit", "flit") else [k for k, _ in stmt[1]]
         bad = next((k for k in keys if not k_hashable(k, decls)), None)
         d = k_first_unhashable_display(bad, decls) if bad is not None else None
         return ["E", None if d is None else ERR_PREFIX + d + ERR_SUFFIX], False
@@ -575,7 +715,7 @@ def split_output(rec, prog):
 
 def nontrivial_of(prog, info):
     """rule: >= 2 differently-built == keys met the same entry, or an entry was removed and re-inserted"""
-    ops = [s for s in prog["stmts"] if s[0] != "decl"]
+    ops = [s for s in prog["stmts"] if s[0] not in NONOPS]
     texts = {}
     removed = set()
     multi = False
@@ -630,7 +770,8 @@ def check_programs(ctx, progs, tag, record=True):
             ctx.corr_broken.append("model evaluation failed for a program (coq_eval): " + wire[:200])
             continue
         mtoks, stoks, info = [x.split(" ") if x else [] for x in val.split("|")]
-        ops = [(i, s) for i, s in enumerate(prog["stmts"]) if s[0] != "decl"]
+        ops = [(i, s) for i, s in enumerate(prog["stmts"]) if s[0] not in NONOPS]
+        vtabs = value_tables(prog)
         decls = decls_of(prog)
         if nontrivial_of(prog, info):
             nontriv.add(wire)
@@ -640,8 +781,8 @@ def check_programs(ctx, progs, tag, record=True):
         if mtoks != stoks:
             # enumeration order may differ between M and S: compare as the program would print
             for (i, s), a, b in zip(ops, mtoks, stoks):
-                ea, ma = expected_of(a, s, decls)
-                eb, mb = expected_of(b, s, decls)
+                ea, ma = expected_of(a, s, decls, vtabs.get(i))
+                eb, mb = expected_of(b, s, decls, vtabs.get(i))
                 if (sorted(map(str, ea)) if ma else ea) != (sorted(map(str, eb)) if mb else eb):
                     ctx.broken.append("M != S on a program (contradicts C12_buckets_refine_assoc): stmt %d %s | M %s | S %s | %s" % (
                         i, json.dumps(s), a[:100], b[:100], wire[:300]))
@@ -651,10 +792,10 @@ def check_programs(ctx, progs, tag, record=True):
             out = split_output(rec, prog)
             for (i, s), mt, st in zip(ops, mtoks, stoks):
                 got = out.get(str(i))
-                exp, multi = expected_of(st, s, decls)
+                exp, multi = expected_of(st, s, decls, vtabs.get(i))
                 if got is None or not lines_match(exp, got, multi):
                     return (i, s, exp, got, "S")
-                expm, multim = expected_of(mt, s, decls)
+                expm, multim = expected_of(mt, s, decls, vtabs.get(i))
                 if not lines_match(expm, got, multim):
                     return (i, s, expm, got, "M")
             if not finished:
@@ -722,7 +863,7 @@ def shrink_first_violation(ctx):
 
     cur = list(prog["stmts"])
     # removing a decl would renumber the variables: only non-decl statements are candidates
-    idx = [i for i, s in enumerate(cur) if s[0] != "decl"]
+    idx = [i for i, s in enumerate(cur) if s[0] not in ("decl", "vdecl")]
     n = 2
     while len(idx) >= 2 and budget[0] > 0:
         size = max(1, len(idx) // n)
@@ -730,9 +871,9 @@ def shrink_first_violation(ctx):
         for a in range(0, len(idx), size):
             drop = set(idx[a:a + size])
             cand = [s for i, s in enumerate(cur) if i not in drop]
-            if any(s[0] != "decl" for s in cand) and fails(cand):
+            if any(s[0] not in NONOPS for s in cand) and fails(cand):
                 cur = cand
-                idx = [i for i, s in enumerate(cur) if s[0] != "decl"]
+                idx = [i for i, s in enumerate(cur) if s[0] not in ("decl", "vdecl")]
                 n = max(n - 1, 2)
                 reduced = True
                 break
@@ -983,6 +1124,10 @@ def run(ctx):
         for via_tuple in (False, True):
             progs.append(gen_boundary_program(gap, via_tuple))
     progs += [gen_alias_program(k) for k in ALIAS]
+    progs += gen_value_identity_programs()
+    progs += [gen_biglit_program(rng, n) for n in (0, 1, 2, 127, 128, 129, 200, 254, 255)]
+    if not quick:
+        progs += [gen_biglit_program(rng, rng.randint(100, 255)) for _ in range(20)]
     nprog = 260 if quick else 4000
     progs += [gen_program(rng, 30 if rng.random() < 0.9 else 80) for _ in range(nprog)]
     np_, nontriv, stats = check_programs(ctx, progs, "prog")
